@@ -3,6 +3,7 @@ use crate::{run_op, OpResult, RunCfg};
 
 pub mod authurl;
 pub mod common;
+pub mod dbg;
 pub mod pkce;
 pub mod poll;
 pub mod req;
@@ -27,6 +28,7 @@ pub fn dispatch(op: &str, cfg: &RunCfg, d: &mut Driver) -> Option<OpResult> {
         "seceq" => run_op::<seceq::SecEqCase>(cfg, d),
         "resp" => run_op::<resp::RespCase>(cfg, d),
         "revoke" => run_op::<revoke::RevokeCase>(cfg, d),
+        "dbg" => run_op::<dbg::DbgCase>(cfg, d),
         "poll" => run_op::<poll::PollCase>(cfg, d),
         "tok" => run_op::<tok::TokCase>(cfg, d),
         "err" => run_op::<err::ErrCase>(cfg, d),
